@@ -33,7 +33,10 @@ def allocatedAfter (s : St) (i p : Nat) : Prop :=
 
 instance (s : St) (i p : Nat) : Decidable (allocatedAfter s i p) := by unfold allocatedAfter; infer_instance
 
-structure Core (cur : Nat) (s : St) : Prop where
+/-- `cur`: the id up to which records may exist (the id of the latest commit at a transaction
+boundary, the id of the committing transaction inside `commit`). `dead`: ids of the savepoints
+whose deletion or invalidation is staged in the committing transaction (none at a boundary). -/
+structure Core (cur : Nat) (dead : List Nat) (s : St) : Prop where
   /-- (1) no page has two owners ... -/
   own_nodup : (owned s).Nodup
   /-- ... every allocated page has an owner and every owned page is allocated -/
@@ -49,22 +52,17 @@ structure Core (cur : Nat) (s : St) : Prop where
   img_data : ∀ p ∈ s.img.data, held s s.durId p
   img_sys : ∀ p ∈ s.img.sys, sysHeld s s.durId p
   /-- pending non-durable commits pin the last durable commit, and exist whenever the latest
-  commit is not the durable one -/
+  commit is not the durable one (then it is itself pending) -/
   pend_anc : ∀ e ∈ s.pend, e.2 = s.durId
-  pend_some : s.durId < s.lastId → s.pend ≠ []
+  last_pend : s.durId < s.lastId → s.lastId ∈ idsOf s.pend
   /-- a pinned snapshot is durable or one of the pending non-durable commits -/
   pin_pend : ∀ π ∈ pins s, π.1 ≤ s.durId ∨ π.1 ∈ idsOf s.pend
-  /-- unpersisted pages: none when nothing is pending; never part of a durable snapshot -/
-  up_empty : s.lastId = s.durId → s.upages = []
-  up_pins : ∀ π ∈ pins s, π.1 ≤ s.durId → ∀ p ∈ π.2, p ∉ s.upages
-  up_img : (∀ p ∈ s.img.data, p ∉ s.upages) ∧ (∀ p ∈ s.img.sys, p ∉ s.upages)
-  up_dalloc : ∀ e ∈ s.dalloc, e.2 ∉ s.upages
   /-- allocation records name each page once, and only pages that are still held -/
   al_nodup : (pagesOf s.dalloc ++ pagesOf s.ualloc).Nodup
   al_held : ∀ e ∈ s.dalloc ++ s.ualloc, held s e.1 e.2
-  /-- for a valid savepoint the allocation records are complete: a held page is part of the
-  savepoint's tree or was allocated after it -/
-  sp_complete : ∀ sp ∈ s.sps, sp.valid = true →
+  /-- for a valid savepoint (that stays valid) the allocation records are complete: a held page is
+  part of the savepoint's tree or was allocated after it -/
+  sp_complete : ∀ sp ∈ s.sps, sp.valid = true → sp.sid ∉ dead →
     (∀ p ∈ s.data, p ∈ sp.pages ∨ allocatedAfter s sp.id p) ∧
     (∀ e ∈ s.dfreed ++ s.udfreed, sp.id < e.1 → e.2 ∈ sp.pages ∨ allocatedAfter s sp.id e.2)
   /-- a page allocated after a savepoint is not part of its tree -/
@@ -76,22 +74,28 @@ structure Core (cur : Nat) (s : St) : Prop where
   sp_sid : ∀ sp ∈ s.sps, sp.sid ≤ s.nextSp
   psp_ctr : ∀ sp ∈ s.sps, sp.persistent = true → sp.sid < s.pspCounter
 
-instance (cur : Nat) (s : St) : Decidable (Core cur s) :=
+/-- unpersisted pages (allocated by non-durable commits since the last durable one): none when
+nothing is pending; never part of a durable snapshot or of a persisted allocation record -/
+structure Unp (s : St) : Prop where
+  up_empty : s.lastId = s.durId → s.upages = []
+  up_pins : ∀ π ∈ pins s, π.1 ≤ s.durId → ∀ p ∈ π.2, p ∉ s.upages
+  up_img : (∀ p ∈ s.img.data, p ∉ s.upages) ∧ (∀ p ∈ s.img.sys, p ∉ s.upages)
+  up_dalloc : ∀ e ∈ s.dalloc, e.2 ∉ s.upages
+
+set_option synthInstance.maxSize 4096 in
+set_option synthInstance.maxHeartbeats 400000 in
+instance (cur : Nat) (dead : List Nat) (s : St) : Decidable (Core cur dead s) :=
   decidable_of_iff
     ((owned s).Nodup ∧ (∀ p ∈ s.alloc, p ∈ owned s) ∧ (∀ p ∈ owned s, p ∈ s.alloc) ∧
      (s.durId ≤ s.lastId ∧ s.lastId ≤ cur) ∧
      (∀ e ∈ s.dfreed ++ s.sfreed ++ s.udfreed ++ s.dalloc ++ s.ualloc, e.1 ≤ s.lastId ∨ e.1 = cur) ∧
      (∀ π ∈ pins s, π.1 ≤ s.lastId ∧ ∀ p ∈ π.2, held s π.1 p) ∧
      s.img.id = s.durId ∧ (∀ p ∈ s.img.data, held s s.durId p) ∧ (∀ p ∈ s.img.sys, sysHeld s s.durId p) ∧
-     (∀ e ∈ s.pend, e.2 = s.durId) ∧ (s.durId < s.lastId → s.pend ≠ []) ∧
+     (∀ e ∈ s.pend, e.2 = s.durId) ∧ (s.durId < s.lastId → s.lastId ∈ idsOf s.pend) ∧
      (∀ π ∈ pins s, π.1 ≤ s.durId ∨ π.1 ∈ idsOf s.pend) ∧
-     (s.lastId = s.durId → s.upages = []) ∧
-     (∀ π ∈ pins s, π.1 ≤ s.durId → ∀ p ∈ π.2, p ∉ s.upages) ∧
-     ((∀ p ∈ s.img.data, p ∉ s.upages) ∧ (∀ p ∈ s.img.sys, p ∉ s.upages)) ∧
-     (∀ e ∈ s.dalloc, e.2 ∉ s.upages) ∧
      (pagesOf s.dalloc ++ pagesOf s.ualloc).Nodup ∧
      (∀ e ∈ s.dalloc ++ s.ualloc, held s e.1 e.2) ∧
-     (∀ sp ∈ s.sps, sp.valid = true →
+     (∀ sp ∈ s.sps, sp.valid = true → sp.sid ∉ dead →
        (∀ p ∈ s.data, p ∈ sp.pages ∨ allocatedAfter s sp.id p) ∧
        (∀ e ∈ s.dfreed ++ s.udfreed, sp.id < e.1 → e.2 ∈ sp.pages ∨ allocatedAfter s sp.id e.2)) ∧
      (∀ sp ∈ s.sps, ∀ e ∈ s.dalloc ++ s.ualloc, sp.id < e.1 → e.2 ∉ sp.pages) ∧
@@ -99,21 +103,31 @@ instance (cur : Nat) (s : St) : Decidable (Core cur s) :=
      s.sps.Pairwise (fun a b => a.sid < b.sid ∧ a.id ≤ b.id) ∧
      (∀ sp ∈ s.sps, sp.sid ≤ s.nextSp) ∧
      (∀ sp ∈ s.sps, sp.persistent = true → sp.sid < s.pspCounter))
-    ⟨fun ⟨a1, a2, a3, a4, a5, a6, a7, a8, a9, a10, a11, a12, a13, a14, a15, a16, a17, a18, a19, a20, a21, a22, a23, a24⟩ =>
-      ⟨a1, a2, a3, a4, a5, a6, a7, a8, a9, a10, a11, a12, a13, a14, a15, a16, a17, a18, a19, a20, a21, a22, a23, a24⟩,
-     fun ⟨a1, a2, a3, a4, a5, a6, a7, a8, a9, a10, a11, a12, a13, a14, a15, a16, a17, a18, a19, a20, a21, a22, a23, a24⟩ =>
-      ⟨a1, a2, a3, a4, a5, a6, a7, a8, a9, a10, a11, a12, a13, a14, a15, a16, a17, a18, a19, a20, a21, a22, a23, a24⟩⟩
+    ⟨fun ⟨a1, a2, a3, a4, a5, a6, a7, a8, a9, a10, a11, a12, a13, a14, a15, a16, a17, a18, a19, a20⟩ =>
+      ⟨a1, a2, a3, a4, a5, a6, a7, a8, a9, a10, a11, a12, a13, a14, a15, a16, a17, a18, a19, a20⟩,
+     fun ⟨a1, a2, a3, a4, a5, a6, a7, a8, a9, a10, a11, a12, a13, a14, a15, a16, a17, a18, a19, a20⟩ =>
+      ⟨a1, a2, a3, a4, a5, a6, a7, a8, a9, a10, a11, a12, a13, a14, a15, a16, a17, a18, a19, a20⟩⟩
 
-/-- The invariant at a transaction boundary: the bookkeeping is sound (`Core`), the state a
+instance (s : St) : Decidable (Unp s) :=
+  decidable_of_iff
+    ((s.lastId = s.durId → s.upages = []) ∧ (∀ π ∈ pins s, π.1 ≤ s.durId → ∀ p ∈ π.2, p ∉ s.upages) ∧
+     ((∀ p ∈ s.img.data, p ∉ s.upages) ∧ (∀ p ∈ s.img.sys, p ∉ s.upages)) ∧ (∀ e ∈ s.dalloc, e.2 ∉ s.upages))
+    ⟨fun ⟨a, b, c, d⟩ => ⟨a, b, c, d⟩, fun ⟨a, b, c, d⟩ => ⟨a, b, c, d⟩⟩
+
+/-- The invariant at a transaction boundary: the bookkeeping is sound (`Core`, `Unp`), the state a
 crash would recover to is sound as well, and every persistent savepoint of the durable image is
 still registered (so its pages are pinned in the running state, too). -/
 structure Inv (s : St) : Prop where
-  core : Core s.lastId s
-  crash : Core s.img.id (recover s.img false)
-  psps : ∀ sp ∈ s.img.psps, sp ∈ s.sps
+  core : Core s.lastId [] s
+  unp : Unp s
+  crash : Core s.img.id [] (recover s.img false)
+  psps : ∀ sp ∈ s.img.psps, sp ∈ s.sps ∧ sp.persistent = true
+  /-- the next write transaction gets an id above every commit -/
+  next : s.lastId ≤ s.nextId
 
 instance (s : St) : Decidable (Inv s) :=
-  decidable_of_iff (Core s.lastId s ∧ Core s.img.id (recover s.img false) ∧ ∀ sp ∈ s.img.psps, sp ∈ s.sps)
-    ⟨fun ⟨a, b, c⟩ => ⟨a, b, c⟩, fun ⟨a, b, c⟩ => ⟨a, b, c⟩⟩
+  decidable_of_iff (Core s.lastId [] s ∧ Unp s ∧ Core s.img.id [] (recover s.img false) ∧
+      (∀ sp ∈ s.img.psps, sp ∈ s.sps ∧ sp.persistent = true) ∧ s.lastId ≤ s.nextId)
+    ⟨fun ⟨a, b, c, d, e⟩ => ⟨a, b, c, d, e⟩, fun ⟨a, b, c, d, e⟩ => ⟨a, b, c, d, e⟩⟩
 
 end Redb.Life2
